@@ -30,7 +30,7 @@ CLAIMED = {
   ref="DESIGN.md §5 C15"),
  'C16': dict(
   text="Symbolic execution of the real MIR of Substance::get (both branches, loop over properties), Mul<&Number> for &Substance and substance_from_formula with its tokenizer: amount, property inputs/outputs (non-zero Reals) and all exponent vectors symbolic, the queried name ranging over property/input/output names of two properties; z3 decides output*(amount/input), its inverse, conformance refusal, no zero exponents, linear scaling under s*k; formulas `H` + up to 11 symbolic characters: molar mass = count*mass, counts above u32::MAX are not formulas, never a panic.",
-  note="Assumes non-zero property inputs/outputs (loader-enforced) and pairwise distinct names (the statement's premise). OUTSIDE: get_in_unit, to_reply, Substance + Substance, database exhaustiveness, multi-element formulas beyond one symbol + count.",
+  note="Assumes non-zero property inputs/outputs (loader-enforced) and pairwise distinct names (the statement's premise). OUTSIDE: to_reply, Substance + Substance, get_in_unit beyond one ratio property and a dimensionless amount, database exhaustiveness, multi-element formulas beyond one symbol + count.",
   technique="symbolic execution of rustc MIR + z3, symbolic digit strings",
   ref="DESIGN.md §5 C16"),
  'C04': dict(
@@ -81,7 +81,7 @@ ADD_TEXT = {
  'C09': " Added: the Duration reply of eval_query (automatic year/week/day/hour/minute/second breakdown) through the real arm with database constants. What is shown of a breakdown: DurationReply::to_spans lists exactly the non-zero parts (either sign) and always the seconds.",
  'C14': " Added: parse_date pattern elements (13 numeric elements, fractional seconds of 1..10 digits, offsets +hhmm / +h..h:mm) on symbolic digit strings; attempt() on the offset pattern with chrono's Parsed conversions by contract: the instant carries exactly the offset written and offsets of 24 h or more are refused; to_duration on float seconds. Date +- duration also through chrono's local-time path by contract (naive_local / from_local_datetime with the zone offset an uninterpreted function of the instant for named zones; the replay adds daylight-saving probes in America/New_York and Europe/Berlin); f64::from_str modelled for fraction digits.",
  'C15': " Added: the parsed query handed to the wrapper is an arbitrary Query (every variant and conversion-target kind), and the post-state obligation covers use_humanize as well as the feature flag, registry and temporaries.",
- 'C16': " Added: counterexamples are replayed on a Substance / symbol table built natively from the model (public fields) and judged with exact fractions. Property outputs may be zero (a formula with a zero count, `H0`): asking for the input of an amount is then refused, never a panic.",
+ 'C16': " Added: counterexamples are replayed on a Substance / symbol table built natively from the model (public fields) and judged with exact fractions. Property outputs may be zero (a formula with a zero count, `H0`): asking for the input of an amount is then refused, never a panic. Substance::get_in_unit (`substance -> c unit`) for one ratio property: shown numeral x printed constant x named units = output / input, with the quantity label of output / input.",
  'C19': " Second engine (mirsym on the MIR of the same file): one step of each operation from an arbitrary state (usage, peak, limit, sizes, parent failure) and two threads running one operation each with every sequentially consistent interleaving of their atomic operations enumerated as solver-checked decisions; native replay by reaching the state through the public API and by a two-thread stress run (one with a limit both blocks cannot fit under). Layouts of alignment 1, 8 and 16 in the one-step harness (Layout::pad_to_align modelled): usage is accounted in layout.size(), whatever the alignment.",
 }
 ADD_NOTE = {
